@@ -84,10 +84,10 @@ def unflQ (neg : Bool) (x : Q) : Unfl :=
 /-- year modulo 100, and day of year with its fraction in units of 1e-8 day, of the naive UTC `datetime` that is `t`
 microseconds after 0001-01-01T00:00:00 -/
 def epochOfAbs (t : Int) : Nat × Nat :=
-  let day := t / 86400000000            -- whole days since 0001-01-01 (t ≥ 0)
-  let us := t % 86400000000
-  let yd := Sgp4Wrap.yearDay (day.toNat + 1)
-  (yd.1 % 100, ((yd.2.2 + 1) * 100000000 + (roundDiv (us * 100000000) 86400000000).toNat))
+  let day := t.toNat / 86400000000      -- whole days since 0001-01-01 (t ≥ 0)
+  let us := t.toNat % 86400000000
+  let yd := Sgp4Wrap.yearDay (day + 1)
+  (yd.1 % 100, ((yd.2.2 + 1) * 100000000 + (roundDiv ((us * 100000000 : Nat) : Int) 86400000000).toNat))
 
 /-- `datetime(year, 1, 1) + timedelta(microseconds=us)` as microseconds since 0001-01-01 -/
 def absOfYear (year : Nat) (us : Int) : Int :=
